@@ -137,13 +137,40 @@ def run(ck):
             if not il and a0.get("k") == "construct" and not [x for x in a0.get("args", []) if x.get("k") != "defaultarg"]:
                 sets.append(set())      # `{}` / QSet<HandlerType>(): the empty class set
             elif not il:
-                sets.append(None)
+                # a computed set (helper function, named constant): a shared *mutable* set that the argument expression itself edits
+                # (`shared << Filter`) is a violation whatever it holds today; otherwise evaluate it by cases
+                muts = [x for x in walk(a) if x.get("k") == "call" and ((x.get("ck") == "operator" and x.get("op") in ("<<", "+=", "|=")) or (x.get("callee") or "").split("::")[-1] in ("insert", "unite", "remove"))]
+                shared = None
+                for x in muts:
+                    tgt = skip_copies((x.get("args") or [None])[0] if x.get("ck") == "operator" else x.get("obj"))
+                    while isinstance(tgt, dict) and tgt.get("k") == "call" and tgt.get("ck") == "operator" and tgt.get("op") == "<<":
+                        tgt = skip_copies(tgt["args"][0])
+                    if isinstance(tgt, dict) and tgt.get("k") == "ref" and tgt.get("dk") not in ("local", "param"):
+                        gv = F.globals.get(tgt.get("decl")) or {}
+                        if not gv.get("const", False):
+                            shared = tgt
+                if shared is not None:
+                    ck.ob("C17-O2", sitestr(fn, c), False, "%s builds its class set by inserting into the shared variable %s (operator<< / insert modify their left operand): the classes added here stay in it for "
+                          "every later call and every other pipeline, so another typed insertion searches with the wrong set" % (m, shared.get("name")), key="%s|class-sets" % m)
+                    sets.append("shared")
+                    continue
+                try:
+                    from engine.conc import Conc, Unknown, Table
+                    v_ = Conc(F, max_steps=20000).eval(a, {"__fn__": fn})
+                    sets.append({ename.get(x, "?%s" % x) for x in v_.items} if isinstance(v_, Table) and v_.items is not None else None)
+                except Exception:
+                    sets.append(None)
             else:
                 sets.append({ename.get(v.get("value"), "?") for v in vals})
+        if "shared" in sets:
+            continue
         if None in sets:
-            ck.ob("C17-O2", sitestr(fn, c), None, "%s: class sets are not literal initializer lists" % m)
+            ck.ob("C17-O2", sitestr(fn, c), None, "%s: class sets are neither literal initializer lists nor expressions the evaluation by cases can tabulate" % m)
             continue
         L, R = sets
+        # the generic class `Handler` has no rank and no typed insertion produces it: naming it in a set changes nothing for lists built
+        # through the typed calls
+        L, R = set(L) - {"Handler"}, set(R) - {"Handler"}
         if left:
             ok = (L == le) and (R <= gt)
             why = "near-left with L=%s R=%s" % (sorted(L, key=_rk), sorted(R, key=_rk))
